@@ -120,17 +120,42 @@ def run(cx):
     # the applier stops at the first error (propagates) rather than continuing with a partial state
     apf = fb.one(r"isograph_compiler::write_artifacts::apply_file_system_operations$")
     n = 0
-    for t in apf.calls():
-        if t.callee and re.search(FS_MUT, t.callee):
+    cone = owner_cone(fb, [apf.id], crates={"isograph_compiler"})
+    loops = blocks_calling(apf, r"Iterator>::next$")
+    for W in cone_fns(fb, cone):
+        for t in W.calls():
+            if not (t.callee and re.search(FS_MUT, t.callee)):
+                continue
             n += 1
+            key = "%s|%s" % (apf.id, t.callee.split("::")[-1]) if W is apf else "%s|%s|%s" % (apf.id, W.name, t.callee.split("::")[-1])
             try:
-                o, e = result_branch(apf, t)
-                rets = reachable_from(apf, e)
-                loops = blocks_calling(apf, r"Iterator>::next$")
-                cont = any(b in rets for b in loops)
-                cx.ob("R19.applier-propagates", "%s|%s" % (apf.id, t.callee.split("::")[-1]), not cont,
-                      "an I/O error in the applier is swallowed and the loop continues", apf.loc(t.line))
+                o, e = result_branch(W, t)
+                if W is apf:
+                    cont = any(b in reachable_from(apf, e) for b in loops)
+                else:
+                    # in a private helper: after the error no further mutation happens there, and the applier
+                    # propagates the helper's error instead of going on with the next operation
+                    after = reachable_from(W, e)
+                    cont = any(b != t.bb and blk_calls(W.blocks[b], FS_MUT) for b in after)
+                    for c in apf.calls():
+                        if c.callee == W.id:
+                            o2, e2 = result_branch(apf, c)
+                            cont = cont or any(b in reachable_from(apf, e2) for b in loops)
+                cx.ob("R19.applier-propagates", key, not cont,
+                      "an I/O error in the applier is swallowed and the loop continues", W.loc(t.line))
             except AnchorError:
-                cx.ob("R19.applier-propagates", "%s|%s" % (apf.id, t.callee.split("::")[-1]), False,
-                      "the result of a file-system call is not checked", apf.loc(t.line))
+                # a helper may hand the Result to its caller unchanged (tail expression, possibly through map_err)
+                returned = W is not apf and local_flows_from(W, 0, lambda d: d is t, 8) is not None
+                ok = False
+                if returned:
+                    ok = True
+                    for c in apf.calls():
+                        if c.callee == W.id:
+                            try:
+                                o2, e2 = result_branch(apf, c)
+                                ok = ok and not any(b in reachable_from(apf, e2) for b in loops)
+                            except AnchorError:
+                                ok = False
+                cx.ob("R19.applier-propagates", key, ok,
+                      "the result of a file-system call is not checked", W.loc(t.line))
     cx.floor("R19.applier-propagates fs calls", n, 4)
